@@ -18,8 +18,8 @@ type Geom struct {
 	NB  [3]int
 }
 
-func (g *Geom) Dim() [3]int   { return [3]int{g.NB[0] * g.BS, g.NB[1] * g.BS, g.NB[2] * g.BS} }
-func (g *Geom) NVox() int     { d := g.Dim(); return d[0] * d[1] * d[2] }
+func (g *Geom) Dim() [3]int    { return [3]int{g.NB[0] * g.BS, g.NB[1] * g.BS, g.NB[2] * g.BS} }
+func (g *Geom) NVox() int      { d := g.Dim(); return d[0] * d[1] * d[2] }
 func (g *Geom) VoxOrg() [3]int { return [3]int{g.Org[0] * g.BS, g.Org[1] * g.BS, g.Org[2] * g.BS} }
 
 // Idx maps an absolute voxel coordinate to the dense index, or -1 when outside the grid.
@@ -219,6 +219,15 @@ func (s *State) setBody(sv, body uint64) {
 	} else {
 		s.Map[sv] = body
 	}
+}
+
+// Assign maps the given supervoxels to an existing body (POST mappings).
+func (s *State) Assign(svs []uint64, body uint64) {
+	for _, sv := range svs {
+		s.setBody(sv, body)
+		s.Seen[sv] = true
+	}
+	s.Seen[body] = true
 }
 
 // Cleave moves the given supervoxels out of their body into newLabel.
